@@ -10,64 +10,64 @@ sys.path.insert(0, os.path.dirname(__file__))
 # id -> (level, technique, text, note, design_ref)
 CHECKS = {
  "C01": ("exploration", "generated forgeries and bit mutants against a reference link verifier (rapid + exhaustive bit sweep + native fuzz)",
-         "Worlds whose private keys the harness owns let it present self-consistent forgeries: every single bit of the signed regions, ~25 structured forgery classes with a verdict known by construction, random multi-edit mutants and a coverage-guided fuzz target; whenever the library accepts, an independent 40-line link verifier must agree that all three links hold on the very bytes given. Sampling-based: it shows absence of violations only on what was generated.",
+         "Worlds whose private keys the harness owns let it present self-consistent forgeries: every single bit of the signed regions, ~25 structured forgery classes with a verdict known by construction, random multi-edit mutants and a coverage-guided fuzz target; whenever the library accepts, an independent 40-line link verifier must agree that all three links hold on the very bytes given. Histories on one Options value mix raw and message calls of genuine and forged quotes (incl. a forgery with the genuine quote's length and CRC-32); a companion built with -race verifies genuine quotes and forged siblings in parallel. Sampling-based: it shows absence of violations only on what was generated.",
          "Trusts Go's crypto/ecdsa, crypto/x509 and the harness's reference codec; low-S/high-S malleability is outside the property and not generated.", "DESIGN.md §4 C01"),
  "C02": ("exploration", "generated PKI pairs, look-alike substitutions and role-confusion chains with an independent x509 path oracle (rapid)",
-         "Quotes fully self-consistent under one generated PKI are verified against pools built from other PKIs with identical subject names, with one chain element substituted, and with wrong-role leaves; acceptance implies an independently checked path to the given pool. Root-of-trust configurations are checked exactly (trust iff listed).",
+         "Quotes fully self-consistent under one generated PKI are verified against pools built from other PKIs with identical subject names, with one chain element substituted, and with wrong-role leaves; acceptance implies an independently checked path to the given pool. Root-of-trust configurations are checked exactly (trust iff listed; blank paths, path names with expansion characters). A state machine re-uses long-lived Options values (incl. pools the API hands out); a third of the cases replay the trusted PKI's genuine collateral at the collateral / revocation levels.",
          "Trusts crypto/x509 path building as the independent oracle; don't-care classes listed in DESIGN.md.", "DESIGN.md §4 C02"),
  "C03": ("fault_enumeration", "enumerated alterations of signed collateral responses against a reference authenticator + reduced-response metamorphic relation",
-         "Every bit of genuine signed responses and issuer-chain headers (sampled in quick, all in thorough), foreign / wrong-role signers, re-encodings without re-signing and unsigned duplicate members under exact, case- and Unicode-fold spellings are served to the verifier; a strict tokenizer decides authenticity and the allowed verdict is {reject, verdict of the response reduced to its signed member}.",
+         "Every bit of genuine signed responses and issuer-chain headers (sampled in quick, all in thorough), foreign / wrong-role signers, re-encodings without re-signing and unsigned duplicate members under exact, case- and Unicode-fold spellings are served to the verifier; a strict tokenizer decides authenticity and the allowed verdict is {reject, verdict of the response reduced to its signed member}. Also: Intel's recorded collateral under a private root, the level report after the kept documents expired, every call under a 30 s watchdog.",
          "The reference authenticator's reading of 'the member whose raw bytes verify'; encoding/json is used by the code under test only.", "DESIGN.md §4 C03"),
  "C04": ("exploration", "reference model of Intel's TCB-level selection, both directions, over a small-scope abstraction plus random vectors (rapid)",
          "Platform SVN vectors, ordered level lists with all 7 statuses, module identities and identity fields are generated, the TCB-Info document is signed for each, and the verdict of verify.TdxQuote must equal a 60-line model of the statement; the level-reporting API must error when nothing matches.",
-         "Module versions >= 10 are not generated (textual form of TDX_<version> not fixed by the property).", "DESIGN.md §4 C04"),
+         "Module identity ids are pinned to the tree's two-digit lower-case hex form; malformed levels may be skipped or refuse the document.", "DESIGN.md §4 C04"),
  "C05": ("fault_enumeration", "enumerated revocation faults (revoked sets, signers, endpoint outcomes) against a reference model, both directions",
-         "CRLs are signed by the harness: serial sets with near misses and large serials, wrong signers, every endpoint outcome and distribution-point subsets; the verdict must equal the model and revocation without collateral must always fail.",
+         "CRLs are signed by the harness: serial sets with near misses and large serials, wrong signers, every endpoint outcome and distribution-point subsets; the verdict must equal the model and revocation without collateral must always fail (also when requested through a root-of-trust config). CRLs altered after signing, authentic-lists-first histories, reason codes, hand-encoded lists (UTF8String names, no number), serial twins modulo 2^64.",
          "Don't-care: first distribution point serving a parsable CRL of the wrong issuer.", "DESIGN.md §4 C05"),
- "C06": ("exploration", "boundary grid {-1s,0,+1s} on every expiry with five distinct times, against a time model; monotonicity metamorphic (rapid + grid)",
-         "Validity windows of all nine certificate roles, both documents and both CRLs and the five TimeSet instants are generated; the verdict must equal the model in an otherwise honest world, and advancing the governing time of a rejected case must keep it rejected.",
+ "C06": ("exploration", "boundary grid {-1s,-1ns,0,+1ns,+0.5s,+1s} on every expiry with five distinct times, against a time model; monotonicity metamorphic (rapid + grid)",
+         "Validity windows of all nine certificate roles, both documents and both CRLs and the five TimeSet instants are generated; the verdict must equal the model in an otherwise honest world, and advancing the governing time of a rejected case must keep it rejected. Times in non-UTC locations, epochs around 2262, every ordered pair (about to expire, expired), time-set entries of disabled checks left zero.",
          "Inclusive bounds as confirmed on the tree; notBefore of non-path certificates is a don't-care.", "DESIGN.md §4 C06"),
  "C07": ("exploration", "reference model of QE identity matching over re-signed QE reports, both directions (rapid)",
-         "QE reports are re-signed with the PCK key for every generated field value and checked against generated identities (masks of any content, wrong lengths, ordered levels with all statuses); verdict must equal the model.",
+         "QE reports are re-signed with the PCK key for every generated field value and checked against generated identities (masks of any content, wrong lengths, ordered levels with all statuses and past / future dates); verdict must equal the model; a signed identity that omits what an unsigned twin supplies must be rejected.",
          "Trusts the model's reading of mask application (report value AND mask == identity value).", "DESIGN.md §4 C07"),
  "C08": ("exploration", "reference model of policy validation over generated quotes x options, crash-freedom for malformed options (rapid + native fuzz)",
-         "Each option field independently unset / empty / equal / one bit off / wrong length, RTMR and AnyMrTd lists of every small shape, SVNs around their minimums and every single XFAM / TD_ATTRIBUTES bit; well-formed options must give exactly the model's verdict, malformed ones must not crash nor accept a quote that misses an expectation.",
+         "Each option field independently unset / empty / equal / one bit off / wrong length, RTMR and AnyMrTd lists of every small shape, SVNs around their minimums and every single XFAM / TD_ATTRIBUTES bit; well-formed options must give exactly the model's verdict, malformed ones must not crash nor accept a quote that misses an expectation. Every pair of expectations (one met, one missed), options converted from a policy, and a state machine over one long-lived options value with in-place edits.",
          "Fixed masks taken from the constants' documentation (XFAM fixed1 0x3 fixed0 0x6DBE7; TD_ATTRIBUTES bits 0,28,30,63).", "DESIGN.md §4 C08"),
  "C09": ("exploration", "differential testing against an independent reference codec + round trips (rapid, exhaustive truncation/boundary grids, native fuzz)",
-         "An own codec written from the Intel layout with literal offsets decides accept/reject and every field; parse-then-serialise must be the identity on accepted inputs and serialise-then-parse on well-formed messages. All truncation lengths and all boundary values of each size/type field (singly and in pairs) are enumerated; the rest is sampled and fuzzed.",
+         "An own codec written from the Intel layout with literal offsets decides accept/reject and every field; parse-then-serialise must be the identity on accepted inputs and serialise-then-parse on well-formed messages. All truncation lengths and all boundary values of each size/type field (singly and in pairs) are enumerated; the rest is sampled and fuzzed. The parsed quote must be independent of the caller's buffer; messages whose byte strings share one buffer, nil / empty representations; returned bytes stay put while other messages are serialised.",
          "Assumes header bytes 8-9 = pce_svn, 10-11 = qe_svn (tree's assignment).", "DESIGN.md §4 C09"),
  "C10": ("exploration", "crash/hang oracle over structure-aware mutants of every untrusted input kind at every entry point (rapid + one native fuzz target per entry point)",
-         "All truncations and size-field boundary values, every single structural mutation of a valid message, arbitrary collateral / CRL / header responses served to an otherwise valid quote, arbitrary DER in the SGX extension; the only oracle is 'returns a value or an error, no panic, no hang'.",
-         "GetRtmrsFromTdQuote / SupportedTcbLevelsFromCollateral have documented preconditions and are excluded.", "DESIGN.md §4 C10"),
+         "All truncations and size-field boundary values, every single structural mutation of a valid message, arbitrary collateral / CRL / header responses served to an otherwise valid quote, arbitrary DER in the SGX extension; date spellings, CRL framings, distribution-point mixes, odd certificate kinds in issuer chains; the only oracle is 'returns a value or an error, no panic, no hang'.",
+         "GetRtmrsFromTdQuote has a documented precondition and is called only after it holds.", "DESIGN.md §4 C10"),
  "C11": ("exploration", "completeness: generated honest worlds must verify at all three levels (rapid), Intel samples under the embedded root",
-         "Guards the soundness checks against 'reject everything': random contents, auth data up to 64 KiB, extra bytes, NUL, level lists with the matching UpToDate level at any position, module branch, arbitrary satisfied masks, both hex cases, several distribution points, five distinct times.",
+         "Guards the soundness checks against 'reject everything': random contents, auth data up to 64 KiB, extra bytes, NUL, level lists with the matching UpToDate level at any position, module branch, arbitrary satisfied masks, both hex cases, several distribution points (leading ones failing), five distinct times, permuted / extended SGX extensions, hand-encoded CRLs, short validity periods around each artifact's own time; a -race companion verifies many worlds in parallel.",
          "Harness self-check (reference links, x509 path, models) runs first so generator bugs surface as exit 2.", "DESIGN.md §4 C11"),
  "C12": ("exploration", "metamorphic monotonicity across option levels, request-log oracle, and a rapid state machine comparing a shared Options value with fresh ones",
-         "Every world (honest or with one fault) is verified under all four option combinations with a recording getter: accept(more checks) implies accept(fewer), no fetch without GetCollateral, CRL URLs only with CheckRevocations, FMSPC / CA named in URLs; histories through one shared Options value must match fresh options step by step.",
+         "Every world (honest or with one fault) is verified under all four option combinations with a recording getter: accept(more checks) implies accept(fewer), no fetch without GetCollateral, CRL URLs only with CheckRevocations, FMSPC / CA named in URLs; histories through one shared Options value must match fresh options step by step and the stateless expectation (incl. collateral twins: same quote, later and worse collateral); identical calls give identical verdicts; the caller's time set is never modified.",
          "One real-clock scenario for Options.Now == nil; lateness is inconclusive.", "DESIGN.md §4 C12"),
  "C13": ("exploration", "exact-value oracle over generated DER encodings of the SGX extension, listed malformations must error (rapid + native fuzz)",
-         "Own DER encoder emits any order, integer width, wrong types and trailing bytes; well-formed encodings must yield exactly the generated values, malformed ones an error.",
+         "Own DER encoder emits any order, integer width, wrong types and trailing bytes; well-formed encodings must yield exactly the generated values, malformed ones an error; unknown neighbour members and the legacy wrapped form may be refused but never yield other values; a -race companion decodes different certificates in parallel.",
          "Duplicated / unknown OIDs and a missing sub-extension among >= 4 are don't-care.", "DESIGN.md §4 C13"),
  "C14": ("exploration", "policy messages x quotes: conversion rules and the C08 reference model on the message's literal fields (rapid)",
          "Each field absent / empty / right size / one short / one long, SVN minimums around 2^16, list shapes; conversion must fail on the listed malformations, and a converted policy must validate exactly as the message literally says without crashing.",
          "Empty-but-non-nil byte strings are don't-care.", "DESIGN.md §4 C14"),
  "C15": ("fault_enumeration", "complete grid of scripted device / provider behaviours against a protocol model",
-         "A scripted client.Device enumerates report result x quote result x status x OutLen x errors completely (exhaustive grid) with random contents; success iff the model says so, result exactly Data[:OutLen], requests carry the caller's data.",
+         "A scripted client.Device enumerates report result x quote result x status x OutLen x errors completely (exhaustive grid) with random contents; success iff the model says so, result exactly Data[:OutLen], requests carry the caller's data. Ten kinds of error value (incl. EINTR with a filled buffer), result codes 0..70, the fall-back path with openable non-TDX paths, values that are device and provider at once, a -race companion with parallel fetches.",
          "Decided against scripted interfaces, not the real ioctl path.", "DESIGN.md §4 C15"),
  "C16": ("exploration", "capacity-deep before/after snapshots around every call + race detector under concurrent stress",
-         "A reflective walker snapshots every byte slice reachable from quote, raw input and options up to its capacity; nothing may change and parsed quotes may not alias the input. Built with -race, goroutine mixes on one shared quote must be silent and agree with the solo verdict.",
+         "A reflective walker snapshots every byte slice reachable from quote, raw input and options up to its capacity; nothing may change and parsed quotes may not alias the input. Built with -race, goroutine mixes on one shared quote must be silent and agree with the solo verdict. Messages with stale size fields; options compared with a deep copy taken before validation.",
          "The schedule quantifier is covered only as far as the race detector and stress rounds reach.", "DESIGN.md §4 C16"),
  "C17": ("exploration", "rapid state machine against a model TSM (register-file model)",
-         "Histories of extend requests over indexes, digest lengths, hash algorithms and logs run against an in-memory configfs TSM that records every operation; invalid requests must not write, valid ones write exactly one digest to the right entry; registers must equal the model's extend chains after every step.",
-         "Decided against configfsi.Client, not real configfs.", "DESIGN.md §4 C17"),
+         "Histories of extend requests over indexes, digest lengths, hash algorithms and logs run against an in-memory configfs TSM that records every operation; invalid requests must not write, valid ones write exactly one digest to the right entry; registers must equal the model's extend chains after every step. A -race companion extends through one client from several goroutines; where a private mount namespace is available the client-less entry points run against the real configfs client on a tmpfs.",
+         "Decided against configfsi.Client; the real configfs client only on a tmpfs stand-in (no kernel TSM semantics).", "DESIGN.md §4 C17"),
  "C18": ("fault_enumeration", "enumerated RTMR bit flips and gate faults on re-signed CCEL quotes",
-         "The sample CCEL log with quotes re-signed under a generated PKI: every single-bit change of measured RTMRs, each signature/trust fault and each policy mismatch must give (nil, error); the untouched control returns a state.",
+         "The sample CCEL log with quotes re-signed under a generated PKI: every single-bit change of measured RTMRs, each signature/trust fault and each policy mismatch must give (nil, error); the untouched control returns a state. Whole-register replacements, unsigned single-bit changes in every field, collateral-level faults, the same options value called again after the collateral turned bad.",
          "Sample log only; RTMR3 (unmeasured) is a don't-care.", "DESIGN.md §4 C18"),
  "C19": ("exploration", "exit-code model over generated config x flags x quote x roots, executing the built tool as a process",
-         "The check tool is built from the working tree and executed; a model of the README decides the exit code for single fault classes, 0 only without faults, never a crash marker on stderr.",
+         "The check tool is built from the working tree and executed; a model of the README decides the exit code for single fault classes, 0 only without faults, never a crash marker on stderr. Exhaustive / focused sub-properties where a single setting decides: root-of-trust precedence, config decoding, one policy setting at a time; fake PCS over a local CONNECT proxy; TZ and near-now certificate windows.",
          "Reachable-network success path with live Intel collateral is out of reach offline.", "DESIGN.md §4 C19"),
  "C20": ("fault_enumeration", "schedule model under a virtual clock (testing/synctest, Go 1.26.8) over failure/success scripts x timeout/delay grid",
-         "k failures then success for all k, failures forever, attempt durations and a grid of Timeout / MaxRetryDelay; first success returned intact with no further attempt, waits bounded by MaxRetryDelay and positive, termination by roughly Timeout + one delay.",
+         "k failures then success for all k, failures forever, attempt durations and a grid of Timeout / MaxRetryDelay; first success returned intact with no further attempt, waits bounded by MaxRetryDelay and positive, termination by roughly Timeout + one delay. Eight kinds of failure value, headers on failed and successful attempts, 2-5 callers sharing one getter (stall watchdog), real-clock companion also under the pre-1.23 timer semantics.",
          "Virtual-clock part runs on Go 1.26.8's runtime.", "DESIGN.md §4 C20"),
 }
 
